@@ -94,17 +94,27 @@ CHECK_DEADLOCK FALSE
 class MultiConc:
     """one document text with list fields; fmap[(model field, mode)] = (real field name, Conc)"""
 
-    def __init__(self, rng, fmap, order, before, after, filler):
+    def __init__(self, rng, fmap, order, before, after, filler, occ=None):
         self.fmap, self.order, self.before, self.after, self.filler = fmap, order, before, after, filler
+        self.occ = occ or {}         # key -> occurrence number when the real field name is DUPLICATED in the paragraph
+
+    @property
+    def dups(self):
+        return bool(self.occ)
+
+    def realkey(self, key):
+        name = self.fmap[key][0]
+        return (name, self.occ[key]) if key in self.occ else name
 
     def document(self):
         parts = [self.before]
         seen = set()
-        for k, key in enumerate(self.order):
+        order = sorted(self.order, key=lambda x: self.occ.get(x, 0)) if self.occ else self.order
+        for k, key in enumerate(order):
             name, conc = self.fmap[key]
-            if name in seen:
+            if (name, self.occ.get(key)) in seen:
                 continue
-            seen.add(name)
+            seen.add((name, self.occ.get(key)))
             parts.append(name + ":" + conc.value_text())
             if k < len(self.filler):
                 parts.append(self.filler[k])
@@ -116,13 +126,15 @@ class MultiConc:
 
     def to_json(self):
         return {"fmap": [[f, m, n, c.to_json()] for (f, m), (n, c) in sorted(self.fmap.items())],
-                "order": [list(k) for k in self.order], "before": self.before, "after": self.after, "filler": self.filler}
+                "order": [list(k) for k in self.order], "before": self.before, "after": self.after, "filler": self.filler,
+                "occ": [[f, m, i] for (f, m), i in sorted(self.occ.items())]}
 
     @classmethod
     def from_json(cls, j):
         B = base()
         fmap = {(f, m): (n, B.Conc.from_json(c)) for f, m, n, c in j["fmap"]}
-        return cls(None, fmap, [tuple(k) for k in j["order"]], j["before"], j["after"], j["filler"])
+        return cls(None, fmap, [tuple(k) for k in j["order"]], j["before"], j["after"], j["filler"],
+                   {(f, m): i for f, m, i in j.get("occ", [])})
 
 
 FILLERS = ["Fill-1: misc\n", "# a comment before the next field\n", "Maintainer: A B <a@b.c>\n", "", "Comment: x,\n y\n", "Vcs-Git: g\n"]
@@ -146,7 +158,13 @@ def replay_conc(rng):
             fmap[(f, m)] = ("%s-%s" % (rng.choice(["Depends", "Arch", "List", "X"]), f + m), c)
     order = list(fmap)
     rng.shuffle(order)
-    return MultiConc(rng, fmap, order, rng.choice(B.BEFORE), rng.choice(B.AFTER), rng.sample(FILLERS, len(order)))
+    occ = {}
+    if rng.random() < 0.4:          # F and G are two occurrences of ONE field name, reached as (name, 0) / (name, 1)
+        for m in ("sp", "cm"):
+            name = fmap[("F", m)][0]
+            fmap[("G", m)] = (name, fmap[("G", m)][1])
+            occ[("F", m)], occ[("G", m)] = 0, 1
+    return MultiConc(rng, fmap, order, rng.choice(B.BEFORE), rng.choice(B.AFTER), rng.sample(FILLERS, len(order)), occ)
 
 
 def trace_conc(rng, stress=False):
@@ -191,7 +209,12 @@ def trace_conc(rng, stress=False):
         c.field = name
     order = [("F", mf), ("G", mg), ("X", "sp")]
     rng.shuffle(order)
-    mc = MultiConc(rng, fmap, order, rng.choice(B.BEFORE), rng.choice(B.AFTER), rng.sample(FILLERS, len(order)))
+    occ = {}
+    if rng.random() < 0.3:          # F and G as occurrences 0 and 1 of one duplicated field name
+        fmap[("G", mg)] = (fmap[("F", mf)][0], fmap[("G", mg)][1])
+        fmap[("G", mg)][1].field = fmap[("F", mf)][0]
+        occ = {("F", mf): 0, ("G", mg): 1}
+    mc = MultiConc(rng, fmap, order, rng.choice(B.BEFORE), rng.choice(B.AFTER), rng.sample(FILLERS, len(order)), occ)
     return mc, lays
 
 
@@ -207,7 +230,7 @@ class World:
         B = base()
         self.mc = mconc
         self.text = mconc.document()
-        self.files = [B.parse(self.text) for _ in range(ndocs)]
+        self.files = [B.parse(self.text, mconc.dups) for _ in range(ndocs)]
         self.paras = [next(iter(f)) for f in self.files]
         self.h = {}
         self.dumps = [self.text for _ in range(ndocs)]
@@ -249,17 +272,20 @@ class World:
             return "<dump() raised %s>" % type(e).__name__
 
     def field_texts(self, d):
-        out = {}
+        out, count = {}, {}
         try:
             for name in self.paras[d - 1].keys():
-                out[str(name)] = self.paras[d - 1].get_kvpair_element(name).convert_to_text()
+                i = count.get(str(name), 0)
+                count[str(name)] = i + 1
+                out["%s#%d" % (name, i)] = self.paras[d - 1].get_kvpair_element((str(name), i)).convert_to_text()
         except Exception as e:
             out["<error>"] = type(e).__name__
         return out
 
     def shows(self):
         B = base()
-        return {h: B.show(x["lst"]) for h, x in self.h.items()}
+        self.reads = getattr(self, "reads", 0) + 1
+        return {h: B.show(x["lst"], self.reads + h) for h, x in self.h.items()}
 
     def do(self, ev):
         """execute one concrete event; returns (res, got or None, read)"""
@@ -268,20 +294,21 @@ class World:
         try:
             if op == "open":
                 key = (ev["f"], ev["m"])
-                name = self.mc.fmap[key][0]
+                rk = self.mc.realkey(key)
+                idiom = ev.get("idiom", 0)
+                if isinstance(rk, tuple) and rk[1] == 0 and idiom % 14 == 0:
+                    rk = rk[0]          # the plain name of a duplicated field resolves to its first occurrence
                 para = self.paras[ev["d"] - 1]
-                if ev.get("idiom", 0) % 2 == 0:
-                    lst = para.as_interpreted_dict_view(B.interp_of(ev["m"]))[name]
-                else:
-                    lst = para.get_kvpair_element(name).interpret_as(B.interp_of(ev["m"]))
-                lst.__enter__()
-                self.h[h] = {"lst": lst, "d": ev["d"], "key": key, "refs": [], "it": None}
-                return "ok", B.show(lst), "ok"
+                obj = B.make_list(para, ev["m"], rk, idiom)
+                blk = B.Block(obj, (idiom // B.N_OPEN) % 2 == 1)
+                lst = blk.enter()
+                self.h[h] = {"lst": lst, "blk": blk, "d": ev["d"], "key": key, "refs": [], "it": None}
+                return "ok", B.show(lst, idiom), "ok"
             if op == "read":
                 key = (ev["f"], ev["m"])
-                name = self.mc.fmap[key][0]
                 try:
-                    return "ok", list(self.paras[ev["d"] - 1].as_interpreted_dict_view(B.interp_of(ev["m"]))[name]), "ok"
+                    lst = B.make_list(self.paras[ev["d"] - 1], ev["m"], self.mc.realkey(key), ev.get("idiom", 0))
+                    return "ok", B.show(lst, ev.get("idiom", 0) + 1, strict=True), "ok"
                 except Exception:
                     return "ok", [], "failed"
             x = self.h[h]
@@ -300,16 +327,16 @@ class World:
             if op == "heldremove":
                 x["refs"][ev["i"] - 1].remove()
                 return "ok", None, "ok"
-            if op == "leave":
-                lst.__exit__(None, None, None)
-                return "ok", None, "ok"
+            if op in ("leave", "abort"):
+                return x["blk"].leave(op == "abort"), None, "ok"
             if op == "reenter":
-                lst.__enter__()
+                x["blk"] = B.Block(lst, ev.get("idiom", 0) % 2 == 1)
+                x["blk"].enter()
                 return "ok", None, "ok"
             if op == "drop":
                 del self.h[h]
                 return "ok", None, "ok"
-            return B.call(lst, op, ev.get("vt"), ev.get("wt"), ev.get("i", 0)), None, "ok"
+            return B.call(lst, op, ev.get("vt"), ev.get("wt"), ev.get("i", 0), ev.get("idiom", 0), x["key"][1]), None, "ok"
         except core.MachineryError:
             raise
         except ValueError:
@@ -332,14 +359,15 @@ class World:
             before = getattr(self, "_ft", {}).get(d)
             after = self.field_texts(d)
             if before is not None:
+                mine = "%s#%d" % (name, self.mc.occ.get(key, 0))
                 for n in before:
-                    if n != name and before.get(n) != after.get(n):
+                    if n != mine and before.get(n) != after.get(n):
                         return "field %s changed when %s was written: %r -> %r" % (n, name, before.get(n), after.get(n))
                 if list(before) != list(after):
                     return "field names %r -> %r" % (list(before), list(after))
             if not now.startswith(self.mc.before) or not now.endswith(self.mc.after):
                 return "text around the list fields changed: %r" % now
-            got, names = B.read_field(now, key[1], name, want_list=False)
+            got, names = B.read_field(now, key[1], name, want_list=False, dups=self.mc.dups)
             if got is None:
                 return "%s; document %r" % (names, now)
             self.dumps[d - 1] = now
@@ -390,7 +418,7 @@ def run_multi_case(ctx, case, mconc, rng_idiom=0):
         if e["op"] == "leave" and res == "ok" and not e["funk"]:
             name = mconc.fmap[key][0]
             B = base()
-            fresh, names = B.read_field(w.dumps[e["d"] - 1], e["m"], name)
+            fresh, names = B.read_field(w.dumps[e["d"] - 1], e["m"], mconc.realkey(key), dups=mconc.dups, variant=k)
             exp = [w.text_of(key, v) for v in e["fresh"]]
             if fresh is None:
                 return "%s: %s" % (where, names)
@@ -436,14 +464,15 @@ def record_multi(rng, nevents, script=None):
                 choices += ["open"] * (4 if len(live) < 2 else 1)
             if inb:
                 choices += ["append"] * 3 + ["remove"] * 2 + ["replace", "refset", "refremove", "hold", "hold", "nl", "cmt",
-                                                               "reformat", "leave", "leave", "leave", "sep"]
+                                                               "reformat", "leave", "leave", "leave", "sep", "noreformat",
+                                                               "vfmt", "vfmtf", "abort"]
                 if any(state[h]["held"] for h in inb):
                     choices += ["heldget", "heldset", "heldset", "heldremove"] * 2
             if [h for h in live if not state[h]["inb"]]:
                 choices += ["reenter", "drop", "drop"]
             choices += ["read"]
             op = rng.choice(choices)
-            ev = {"op": op, "h": 0, "d": 0, "f": "", "m": "", "i": 0}
+            ev = {"op": op, "h": 0, "d": 0, "f": "", "m": "", "i": 0, "idiom": rng.randrange(56)}
             if op in ("open", "read"):
                 # prefer a field somebody already has open: aliasing needs company
                 busy = [state[h]["key"] for h in live]
@@ -454,7 +483,7 @@ def record_multi(rng, nevents, script=None):
                     f = rng.choice(busy)[0]
                     cands = [x for x in cands if x[0] == f] or cands
                 key = rng.choice(cands)
-                ev.update(f=key[0], m=key[1], d=rng.choice([1, 1, 2]), idiom=rng.randrange(2))
+                ev.update(f=key[0], m=key[1], d=rng.choice([1, 1, 2]))
                 if op == "open":
                     ev["h"] = rng.choice(free)
             elif op in ("reenter", "drop"):
@@ -514,10 +543,12 @@ def record_multi(rng, nevents, script=None):
             state[h] = {"inb": True, "key": key, "d": ev["d"], "n": len(shows.get(h, [])), "held": 0}
         elif ev["op"] == "drop":
             state[h] = None
+        elif ev["op"] == "abort":
+            state[h]["inb"] = False
         elif ev["op"] == "leave":
             state[h]["inb"] = False
             # a fresh read right after leaving (what the document holds now)
-            rd = {"op": "read", "h": 0, "d": ev["d"], "f": ev["f"], "m": ev["m"], "i": 0}
+            rd = {"op": "read", "h": 0, "d": ev["d"], "f": ev["f"], "m": ev["m"], "i": 0, "idiom": ev.get("idiom", 0) + 3}
             if plan is None:
                 w.pre(rd)
                 r2, g2, readable2 = w.do(rd)
